@@ -172,6 +172,11 @@ def histStep (db : Db) (step : String) : Db × String :=
     match db.candidates (parseHexText a[3]!) k d with
     | .error e => (db, loadErrStr e)
     | .ok l => (db, s!"cands=[{natList (l.map (·.line))}]")
+  | "J" =>
+    -- impersonate_mtu by label: the MTU is that of one of the records filed under the label
+    match db.candidates (parseHexText a[3]!) .mtu none with
+    | .error e => (db, loadErrStr e)
+    | .ok l => (db, s!"mtus=[{natList ((l.filterMap DbRec.mtuOf).eraseDups.mergeSort (· ≤ ·))}]")
   | "I" => (db, "-")
   | _ => (db, "?step")
 
